@@ -261,7 +261,12 @@ func main() {
 			r.Floor("documented panic seen: Abs of the minimum of "+tn, r.Table("documented panics seen", "xmath.Abs of the minimum of "+tn), 1)
 		}
 		r.Floor("astronomic: Chunk into >= 2 chunks with 2*chunkSize > MaxInt", r.Table("astronomic", "Chunk with >= 2 chunks and 2*chunkSize > MaxInt"), 1)
-		r.Floor("astronomic: RSample tables with n >= 2^40", r.Table("astronomic", "RSample tables with n >= 2^40"), 14)
+		r.Floor("astronomic: RSample tables with n >= 2^40", r.Table("astronomic", "RSample tables with n >= 2^40"), 18)
+		r.Floor("astronomic: RSample low-bit tables (position mod 2,3,4,8,16,256)", r.Table("astronomic", "RSample low-bit tables"), 108)
+		for _, fn := range []string{"xsort.Merge", "xsort.MergeSlices", "xslices.Join", "xmaps.Union", "xmaps.Intersection", "xmaps.Intersects"} {
+			r.Floor("argument-list integrity checks of "+fn, r.Table("argument integrity", fn), 1)
+		}
+		r.Floor("Merge with an empty input that is not last", r.Table("argument integrity", "xsort.Merge with an empty input that is not last"), 1)
 		r.Floor("Runs inputs with a leading run of length one", r.Table("runs", "leading run of length one"), 1)
 		r.Floor("Partition inputs with both sides non-empty", r.Table("partition", "both sides non-empty"), 1)
 		r.Floor("RemoveUnordered calls that fill a gap from the end", r.Table("remove-unordered", "gap filled from the end"), 1)
